@@ -445,3 +445,47 @@ pub fn run_case(id: &str, toks: &[&str]) -> String {
     let _ = std::fs::remove_file(&link);
     out.join(" ")
 }
+
+/// Case kind "tryfrom": FileSpec::try_from(path) denotes exactly that path, and a writer built from it writes there.
+pub fn run_tryfrom(id: &str, toks: &[&str]) -> String {
+    let rel = ustr(&unhex(toks[0]));
+    let root = scratch_root().join(format!("tf_{id}"));
+    let _ = std::fs::remove_dir_all(&root);
+    std::fs::create_dir_all(&root).unwrap();
+    // relative paths are relative to the working directory
+    std::env::set_current_dir(&root).unwrap();
+    let path = PathBuf::from(&rel);
+    let r = catch_unwind(AssertUnwindSafe(|| FileSpec::try_from(path.clone())));
+    let out = match r {
+        Err(_) => "p2".to_string(),
+        Ok(Err(_)) => "p1".to_string(),
+        Ok(Ok(spec)) => {
+            let back = spec.as_pathbuf(None);
+            // the same path, a leading or inner "." aside
+            let norm = |p: &Path| p.components().filter(|c| !matches!(c, std::path::Component::CurDir)).collect::<PathBuf>();
+            let rt = norm(&back) == norm(&path);
+            *payload().lock().unwrap() = b"hello".to_vec();
+            let built = catch_unwind(AssertUnwindSafe(|| {
+                FileLogWriter::builder(spec.clone()).format(raw_format).try_build_with_handle()
+            }));
+            match built {
+                Ok(Ok((arc, handle))) => {
+                    let _ = LogWriter::write(
+                        &*arc,
+                        &mut DeferredNow::new(),
+                        &log::Record::builder().level(log::Level::Error).args(format_args!("x")).build(),
+                    );
+                    drop(handle);
+                    drop(arc);
+                    let ok = std::fs::read(&path).map(|d| d == b"hello\n").unwrap_or(false);
+                    format!("p0 rt{} b1 w{}", u8::from(rt), u8::from(ok))
+                }
+                Ok(Err(_)) => format!("p0 rt{} b0 w0", u8::from(rt)),
+                Err(_) => format!("p0 rt{} b2 w0", u8::from(rt)),
+            }
+        }
+    };
+    std::env::set_current_dir(scratch_root()).unwrap();
+    let _ = std::fs::remove_dir_all(&root);
+    out
+}
